@@ -325,6 +325,10 @@ class Failure:
 def _locate(r, part):
     """Map TLC's reported position to (index of the failing test in part, event index, event)."""
     l = r.last_l()
+    if l is None and r.post_failed and not r.violated and r.distinct > 0:
+        # the trace got stuck: deterministic step relation, one state per consumed line, so the
+        # line that could not be consumed is number <distinct states>
+        l = r.distinct
     if l is None:
         raise Inconclusive("TLC rejected a trace without a position:\n" + r.out[-3000:])
     ev_line = (l - 1) if r.violated else l
